@@ -221,6 +221,7 @@ def family_run(tier, seed, use_cache=True):
                 return json.load(f)
         shutil.rmtree(rdir, ignore_errors=True)
         os.makedirs(rdir)
+        t_start = time.time()
         files, dstats = record_traces(binary, os.path.join(rdir, "traces"), tier, seed)
         gfiles, gstats = generate_behaviours(binary, os.path.join(rdir, "gen"), tier, seed)
         dstats.update(gstats)
@@ -242,7 +243,7 @@ def family_run(tier, seed, use_cache=True):
                     sample.append({k: v for k, v in e.items() if v not in ("", 0, [], None, "ok", [""])} | {"result": r["out"]["result"]})
                 if len(sample) >= 25:
                     break
-        res = {"dir": rdir, "driver": dstats, "validation": val, "sample": sample, "build": bkey}
+        res = {"dir": rdir, "driver": dstats, "validation": val, "sample": sample, "build": bkey, "wall_s": round(time.time() - t_start, 1)}
         with open(rfile, "w") as f:
             json.dump(res, f)
         prune_runs(keep=6)
@@ -345,7 +346,7 @@ def run_property(pid, tier, seed, use_cache=True):
             "explanation": "states/transitions = states of the bounded model MC.tla explored exhaustively by TLC (all catalogue formulas as invariants) "
                            "+ states of the real code observed in recorded traces and evaluated by TLC (Trace.tla: formulas and conformance with Chain!Apply)",
         }
-        return {"coverage": cov, "violations": viol, "level": "model_checking",
+        return {"coverage": cov, "violations": viol, "level": "model_checking", "engine_wall_s": fam.get("wall_s", 0),
                 "assumptions": ["keeper-level driver: handlers via MsgServiceRouter in a cache context, module blockers called in app.go order",
                                 "projection harness/chain/project.go is faithful"]}
     if pid in ("C01", "C03", "C18"):
@@ -367,7 +368,7 @@ def run_property(pid, tier, seed, use_cache=True):
             "explanation": "Replicas.tla model-checked (implemented design: Agreement holds; hazard design: violated as witness); "
                            "TLC-generated schedules executed on two real ABCI replicas (new process per restart) and compared hash by hash",
         }
-        return {"coverage": cov, "violations": viol, "level": "model_checking",
+        return {"coverage": cov, "violations": viol, "level": "model_checking", "engine_wall_s": rep.get("wall_s", 0),
                 "assumptions": ["replica B differs from A only by the schedule's non-consensus calls, restarts and lateness",
                                 "map-iteration nondeterminism is sampled by repeated runs, not enumerated"]}
     raise MachineryError("property %s has no engine yet" % pid)
@@ -409,4 +410,26 @@ def save_replay(pid, v):
 
 
 def replay(pid, path):
-    raise MachineryError("replay not built yet")
+    """Re-execute a replay file on the CURRENT tree and re-evaluate the property's formulas on the new observation."""
+    binary, _ = build_harness()
+    path = path if os.path.isabs(path) else os.path.join(VERIF, path)
+    work = os.path.join(CACHE, "replay-" + hashlib.sha256(path.encode()).hexdigest()[:10])
+    shutil.rmtree(work, ignore_errors=True)
+    os.makedirs(work)
+    first = open(path).readline()
+    rec = json.loads(first) if first.strip().startswith("{") else None
+    if rec is not None and rec.get("kind") == "genesis":
+        out = os.path.join(work, "replayed.ndjson")
+        rc, o, _ = run([binary, "replay", "--in", path, "--out", out], timeout=900)
+        if rc not in (0, 3):
+            raise MachineryError("replay failed: " + o[-1500:])
+        val = validate_traces([out], os.path.join(work, "tlc"))
+        bad = [v for v in val["violations"] if v["formula"].startswith(pid + "_")]
+    elif rec is not None and rec.get("kind") in ("sel", "ri", "age"):
+        raise MachineryError("selection cases are re-run by the check itself (bin/check %s): the case is in %s" % (pid, path))
+    else:
+        raise MachineryError("replica scripts are re-run by the check itself (bin/check %s); the script is %s" % (pid, path))
+    for v in bad[:5]:
+        print("VIOLATION property=%s replay=%s formula=%s line=%d" % (pid, os.path.relpath(path, VERIF), v["formula"], v["line"]))
+    log("replay %s: %d formula violation(s) of %s on the current tree" % (os.path.basename(path), len(bad), pid))
+    return 1 if bad else 0
